@@ -196,7 +196,7 @@ pub fn build_sims(case: &Case) -> anyhow::Result<Vec<SpeedLimitTrainSim>> {
 // C15: estimated-time network invariants
 // ------------------------------------------------------------------------------------------------
 
-pub fn check_est_net(ctx: &mut Ctx, t: usize, et: &EstTimeNet, links: &[Link], origs: &[usize], dests: &[usize], rng: &mut Rng) {
+pub fn check_est_net(ctx: &mut Ctx, t: usize, et: &EstTimeNet, links: &[Link], origs: &[usize], dests: &[usize], train_len: f64, rng: &mut Rng) {
     let v = &et.val;
     let n = v.len();
     let viol = |ctx: &mut Ctx, clause: &str, detail: String, sig: Sig| ctx.violate_sig("C15", "est_time_net", clause, format!("train {t}: {detail}"), sig);
@@ -323,18 +323,39 @@ pub fn check_est_net(ctx: &mut Ctx, t: usize, et: &EstTimeNet, links: &[Link], o
         let mut clears: Vec<usize> = vec![];
         let mut steps = 0;
         let mut seq_ok = true;
+        // distance travelled by the front along the primary walk (walk 0), at each arrive / clear event
+        let mut dist = 0.0f64;
+        let mut arrive_at: Vec<(usize, f64)> = vec![];
         loop {
             let e = &v[i];
             match e.link_event.est_type {
-                EstType::Arrive => arrives.push(e.link_event.link_idx.idx()),
+                EstType::Arrive => {
+                    arrives.push(e.link_event.link_idx.idx());
+                    arrive_at.push((e.link_event.link_idx.idx(), dist));
+                }
                 EstType::Clear => {
                     let l = e.link_event.link_idx.idx();
                     if !arrives.contains(&l) {
                         seq_ok = false;
                     }
                     clears.push(l);
+                    // a clear event of segment L is the tail passing the ENTRY of L (the dispatcher's clear_entry): it
+                    // comes one train length after the front entered L (not for the origin, where the train stands)
+                    if w == 0 && train_len > 0.0 {
+                        if let Some(k) = arrive_at.iter().position(|x| x.0 == l) {
+                            if k > 0 {
+                                let run = dist - arrive_at[k].1;
+                                if !close(run, train_len, 1e-6, 1e-3, 0.0) {
+                                    viol(ctx, "the tail passes a segment's entry one train length after the front", format!("walk 0: clear event of link {l} comes {run:.3} m after its arrive event, train length {train_len:.3} m"), Sig::new());
+                                }
+                            }
+                        }
+                    }
                 }
                 _ => {}
+            }
+            if w == 0 {
+                dist += e.dist_to_next.value;
             }
             if i == end {
                 break;
@@ -642,7 +663,7 @@ pub fn execute(case: &Case, ctx: &mut Ctx) {
                 ctx.layer = "est-time-graph";
                 let origs: Vec<usize> = s.origs.iter().map(|l| l.link_idx.idx()).collect();
                 let dests: Vec<usize> = s.dests.iter().map(|l| l.link_idx.idx()).collect();
-                check_est_net(ctx, t, &et, links, &origs, &dests, &mut rng);
+                check_est_net(ctx, t, &et, links, &origs, &dests, s.state.length.value, &mut rng);
                 for e in &et.val {
                     ctx.trace.f(e.time_sched.value);
                     ctx.trace.u(e.idx_next as u64);
